@@ -22,11 +22,16 @@ structure PNode where
   prev : Option Nat := none
   deriving Repr, DecidableEq, Inhabited
 
-abbrev Heap := Nat → Option PNode
+/-- the heap: node id ↦ node.  (A structure around the function, not the bare function type: a definition whose
+result type is a function is compiled as a function of one more argument, so `swap h a b` would be a closure that
+re-runs the whole pointer surgery on every later lookup.) -/
+structure Heap where
+  get : Nat → Option PNode := fun _ => none
+instance : CoeFun Heap (fun _ => Nat → Option PNode) := ⟨Heap.get⟩
 
 /-- the heap and the allocation serial of the next node -/
 structure St where
-  heap  : Heap := fun _ => none
+  heap  : Heap := {}
   fresh : Nat := 0
 
 /-- `struct cc_list_s` (the three allocator function pointers are the triple) -/
@@ -39,7 +44,7 @@ structure Hdr where
 
 /-! ### field access -/
 def nd (h : Heap) (id : Nat) : PNode := (h id).getD {}
-def upd (h : Heap) (id : Nat) (f : PNode → PNode) : Heap := fun j => if j = id then (h j).map f else h j
+def upd (h : Heap) (id : Nat) (f : PNode → PNode) : Heap := ⟨fun j => if j = id then (h j).map f else h j⟩
 def setNext (h : Heap) (id : Nat) (v : Option Nat) : Heap := upd h id ({ · with next := v })
 def setPrev (h : Heap) (id : Nat) (v : Option Nat) : Heap := upd h id ({ · with prev := v })
 def setData (h : Heap) (id : Nat) (v : Nat) : Heap := upd h id ({ · with data := v })
@@ -49,9 +54,9 @@ def prevOf (h : Heap) (p : Option Nat) : Option Nat := p.bind fun id => (nd h id
 
 /-- `mem_calloc(1, sizeof(Node))` succeeded: a zeroed node with the next serial number -/
 def St.alloc (s : St) : Nat × St :=
-  (s.fresh, { heap := fun j => if j = s.fresh then some {} else s.heap j, fresh := s.fresh + 1 })
+  (s.fresh, { heap := ⟨fun j => if j = s.fresh then some {} else s.heap j⟩, fresh := s.fresh + 1 })
 /-- `mem_free(node)` -/
-def St.free (s : St) (id : Nat) : St := { s with heap := fun j => if j = id then none else s.heap j }
+def St.free (s : St) (id : Nat) : St := { s with heap := ⟨fun j => if j = id then none else s.heap j⟩ }
 
 /-! ### walks -/
 def walkNext (h : Heap) : Nat → Option Nat → Option Nat
